@@ -6,6 +6,8 @@
 import PM.Step
 import Proofs.StepToks
 import Proofs.MarkEffect
+import Proofs.MarkPlan
+import PM.TypePlan
 import Props.C14
 namespace PM.C13
 open PM
@@ -175,5 +177,316 @@ theorem retype_keeps_children (S : Schema) (doc doc' : Node) (pos size : Nat) (n
     rw [hgap] at e
     have := retype_arith (ftoks doc.kids) (Tok.op ty a ms) Tok.cl pos size hsz hle _ e
     simpa [Node.toks] using this
+
+/-! ### the planners of `Transform` (PM/MarkPlan.lean): `remove_mark` -/
+
+/-- **`Transform.remove_mark(from, to, mark | mark type | None)`** — the whole operation: the walk
+    with its range coalescing plans `planRemoveMarkSteps`, which are applied in order.  If the
+    operation goes through, the recorded steps are exactly the planned ones, the length, structure
+    and text are unchanged, every inline token inside `[f, t)` keeps exactly the marks the selector
+    does not match (equal mark / same type / any), and every other token is unchanged. -/
+theorem planRemoveMark_effect (S : Schema) (tr tr' : Tr) (f t : Nat) (sel : MarkSel)
+    (h : tr.removeMark S f t sel = .ok tr') :
+    let old := ftoks tr.doc.kids
+    let new := ftoks tr'.doc.kids
+    tr'.steps = tr.steps ++ planRemoveMarkSteps S tr.doc f t sel ∧
+    new.length = old.length ∧
+    ∀ i, i < old.length →
+      (tokAt new i).shape = (tokAt old i).shape ∧
+      ((f ≤ i ∧ i < t ∧ isInlineTok S (tokAt old i) = true) →
+        (tokAt new i).marks = (tokAt old i).marks.filter (fun x => !sel.matches x)) ∧
+      (¬ (f ≤ i ∧ i < t ∧ isInlineTok S (tokAt old i) = true) → tokAt new i = tokAt old i) := by
+  intro old new
+  unfold Tr.removeMark planRemoveMark at h
+  split at h
+  · rename_i sts hsts
+    split at hsts
+    · simp at hsts
+    · simp only [Except.ok.injEq] at hsts
+      subst hsts
+      obtain ⟨ha, hs⟩ := Tr.stepAll_spec S _ tr tr' h
+      obtain ⟨_, hlen, hp⟩ := planRemoveMarkSteps_toks S tr.doc tr'.doc f t sel ha
+      refine ⟨hs, hlen, fun i hi => ?_⟩
+      simp only [tokAt, old, new]
+      rw [hp i hi]
+      by_cases hr : f ≤ i ∧ i < t
+      · rw [if_pos hr]
+        refine ⟨rmTok_shape S _ _, fun hc => rmTok_marks S _ _ hc.2.2, fun hc => ?_⟩
+        have : ¬ isInlineTok S ((ftoks tr.doc.kids).getD i Tok.cl) = true := fun hin => hc ⟨hr.1, hr.2, hin⟩
+        unfold rmTok; rw [if_neg this]
+      · rw [if_neg hr]
+        exact ⟨rfl, fun hc => absurd ⟨hc.1, hc.2.1⟩ hr, fun _ => rfl⟩
+  · simp at h
+
+/-- consequence: afterwards no inline content inside the range carries a matching mark -/
+theorem planRemoveMark_none_left (S : Schema) (tr tr' : Tr) (f t : Nat) (sel : MarkSel)
+    (h : tr.removeMark S f t sel = .ok tr') (i : Nat) (hi : i < (ftoks tr.doc.kids).length)
+    (hr : f ≤ i ∧ i < t) (ha : isInlineTok S (tokAt (ftoks tr.doc.kids) i) = true) :
+    ∀ x ∈ (tokAt (ftoks tr'.doc.kids) i).marks, sel.matches x = false := by
+  have hm := ((planRemoveMark_effect S tr tr' f t sel h).2.2 i hi).2.1 ⟨hr.1, hr.2, ha⟩
+  rw [hm]
+  intro x hx
+  simpa using (List.mem_filter.mp hx).2
+
+/-! ### the planners of `Transform`: `add_mark` -/
+
+/-- unfolding `Tr.addMark`: the recorded steps are the planned ones and the new document is the
+    result of applying them in order -/
+theorem addMark_steps (S : Schema) (tr tr' : Tr) (f t : Nat) (m : Mark) (h : tr.addMark S f t m = .ok tr') :
+    tr'.steps = tr.steps ++ planAddMarkSteps S tr.doc f t m ∧
+    S.applyAll (planAddMarkSteps S tr.doc f t m) tr.doc = .ok tr'.doc := by
+  unfold Tr.addMark planAddMark at h
+  split at h
+  · rename_i sts hsts
+    split at hsts
+    · simp at hsts
+    · simp only [Except.ok.injEq] at hsts
+      subst hsts
+      obtain ⟨ha, hs⟩ := Tr.stepAll_spec S _ tr tr' h
+      exact ⟨hs, ha⟩
+  · simp at h
+
+/-- **`Transform.add_mark(from, to, mark)`** — the whole operation (walk, coalescing, first the
+    `RemoveMarkStep`s for displaced marks, then the `AddMarkStep`s), for *every* document.
+    If it goes through: length, structure and text are unchanged, and for every token `i`
+    * (carries) an inline atom inside `[f, t)` whose enclosing node allows the mark type carries the
+      mark afterwards, unless a mark already present excludes it (and is not excluded by it);
+    * (not invented) the mark appears only on such tokens or where it already was;
+    * (other marks) no other mark is invented, and every other mark the new mark does not exclude
+      is kept;
+    * (outside) tokens outside `[f, t)` are unchanged. -/
+theorem planAddMark_effect (S : Schema) (tr tr' : Tr) (f t : Nat) (m : Mark)
+    (h : tr.addMark S f t m = .ok tr') :
+    let old := ftoks tr.doc.kids
+    let new := ftoks tr'.doc.kids
+    let qualifies := fun i => f ≤ i ∧ i < t ∧ isAtomTok S (tokAt old i) = true ∧
+      (S.nodeType (ctxAt (S.tyOf tr.doc) old i)).allowsMarkType m.ty = true
+    tr'.steps = tr.steps ++ planAddMarkSteps S tr.doc f t m ∧
+    new.length = old.length ∧
+    ∀ i, i < old.length →
+      (tokAt new i).shape = (tokAt old i).shape ∧
+      (qualifies i → m ∈ (tokAt new i).marks ∨
+        ∃ o ∈ (tokAt old i).marks, S.excludes o.ty m.ty = true ∧ S.excludes m.ty o.ty = false) ∧
+      (m ∈ (tokAt new i).marks → m ∈ (tokAt old i).marks ∨ qualifies i) ∧
+      (∀ x, x ≠ m →
+        (x ∈ (tokAt new i).marks → x ∈ (tokAt old i).marks) ∧
+        (x ∈ (tokAt old i).marks → S.excludes m.ty x.ty = false → x ∈ (tokAt new i).marks)) ∧
+      (¬ (f ≤ i ∧ i < t) → tokAt new i = tokAt old i) := by
+  intro old new qualifies
+  obtain ⟨hs, ha⟩ := addMark_steps S tr tr' f t m h
+  obtain ⟨hlen, hp⟩ := planAddMarkSteps_effect S tr.doc tr'.doc f t m ha
+  exact ⟨hs, hlen, hp⟩
+
+/-- **`Transform.add_mark`, exact form**: when every inline node the walk visits is a leaf or a text
+    node (no marked inline node *with content* in the range — true for every document of the bundled
+    schemas), the operation does exactly what the documented rule says: an inline atom inside
+    `[f, t)` whose enclosing node allows the mark type gets `addSpec` (C14) of its old marks,
+    and every other token is unchanged.
+
+    Without the hypothesis the exact statement is false in the code (upstream as well): the
+    `RemoveMarkStep` planned for an inline node *with content* spans its content too and strips the
+    displaced mark from children that cannot take the new mark (e.g. a text child with marks
+    `{x, o}`, `m` excludes `x`, `o` excludes `m`, inside a span carrying `x`: the child ends as `{o}`
+    instead of the documented `{x, o}`); `planAddMark_effect` is what holds in general. -/
+theorem planAddMark_exact (S : Schema) (tr tr' : Tr) (f t : Nat) (m : Mark)
+    (hflat : ∀ v ∈ S.docVisits tr.doc f t, S.nodeInline v.node = true → v.node.isLeaf = true)
+    (h : tr.addMark S f t m = .ok tr') :
+    let old := ftoks tr.doc.kids
+    let new := ftoks tr'.doc.kids
+    new.length = old.length ∧
+    ∀ i, i < old.length →
+      ((f ≤ i ∧ i < t ∧ isAtomTok S (tokAt old i) = true ∧
+          (S.nodeType (ctxAt (S.tyOf tr.doc) old i)).allowsMarkType m.ty = true) →
+        tokAt new i = (tokAt old i).withMarks (C14.addSpec S m (tokAt old i).marks)) ∧
+      (¬ (f ≤ i ∧ i < t ∧ isAtomTok S (tokAt old i) = true ∧
+          (S.nodeType (ctxAt (S.tyOf tr.doc) old i)).allowsMarkType m.ty = true) →
+        tokAt new i = tokAt old i) := by
+  intro old new
+  obtain ⟨_, ha⟩ := addMark_steps S tr tr' f t m h
+  obtain ⟨hlen, hp⟩ := planAddMarkSteps_exact S tr.doc tr'.doc f t m hflat ha
+  refine ⟨hlen, fun i hi => ?_⟩
+  simp only [tokAt, ctxAt, old, new]
+  rw [hp i hi]
+  constructor
+  · intro hc
+    rw [if_pos hc, C14.addToSet_spec]
+  · intro hc
+    rw [if_neg hc]
+
+/-! ### the node-level planners (PM/TypePlan.lean): `set_node_markup`, `set_block_type` -/
+
+theorem Tr.step_spec (S : Schema) (tr tr' : Tr) (s : Step) (h : tr.step S s = .ok tr') :
+    S.apply s tr.doc = .ok tr'.doc ∧ tr'.steps = tr.steps ++ [s] := by
+  unfold Tr.step at h
+  split at h
+  · rename_i d hd
+    simp only [Except.ok.injEq] at h
+    subst h
+    exact ⟨hd, rfl⟩
+  · simp at h
+
+theorem PSt.step_spec (S : Schema) (st st' : PSt) (s : Step) (h : st.step S s = .ok st') :
+    S.apply s st.tr.doc = .ok st'.tr.doc ∧ st'.tr.steps = st.tr.steps ++ [s] := by
+  unfold PSt.step at h
+  cases ht : st.tr.step S s with
+  | error e => rw [ht] at h; simp [Except.map] at h
+  | ok tr' =>
+    rw [ht] at h
+    simp only [Except.map, Except.ok.injEq] at h
+    subst h
+    exact Tr.step_spec S st.tr tr' s ht
+
+/-- the children-level conclusion of `retype_keeps_children` for a node spanning `[s, e)` -/
+def KeepsChildren (doc doc' : Node) (s e : Nat) (newNode : Node) : Prop :=
+  (ftoks doc'.kids).length = (ftoks doc.kids).length ∧
+  ((ftoks doc'.kids).drop (s + 1)).take (e - s - 2) = ((ftoks doc.kids).drop (s + 1)).take (e - s - 2) ∧
+  (ftoks doc'.kids).take s = (ftoks doc.kids).take s ∧
+  (ftoks doc'.kids).drop e = (ftoks doc.kids).drop e ∧
+  (ftoks doc'.kids)[s]? = newNode.toks.head?
+
+/-- **the step both retyping operations emit keeps the children**: `retypeStep s e newNode`
+    (gap = everything between the node's open and close token, slice = the new empty node) leaves
+    the inner tokens, the prefix and the suffix in place and puts the new open token at `s` -/
+theorem retypeStep_keeps_children (S : Schema) (doc doc' : Node) (s e : Nat) (newNode : Node)
+    (hnew : newNode.kids = [] ∧ newNode.isLeaf = false ∧ newNode.isText = false)
+    (hse : s + 2 ≤ e)
+    (h : S.apply (retypeStep s e newNode) doc = .ok doc') : KeepsChildren doc doc' s e newNode := by
+  have e1 : e = s + (e - s) := by omega
+  have e2 : e - 1 = s + (e - s) - 1 := by omega
+  unfold retypeStep at h
+  rw [e2] at h
+  conv at h => lhs; arg 2; arg 2; rw [e1]
+  have := retype_keeps_children S doc doc' s (e - s) newNode hnew (by omega) h
+  unfold KeepsChildren
+  rw [← e1] at this
+  exact this
+
+theorem createNode_shape (S : Schema) (ty : TypeId) (attrs : Attrs) (marks : Marks) (nn : Node)
+    (hleaf : (S.nodeType ty).isLeaf = false) (h : S.createNode ty attrs marks = .ok nn) :
+    nn.kids = [] ∧ nn.isLeaf = false ∧ nn.isText = false := by
+  unfold Schema.createNode at h
+  simp only [hleaf] at h
+  split at h
+  · simp at h
+  · cases hc : computeAttrs (S.nodeType ty).attrs attrs with
+    | error e => rw [hc] at h; simp [Except.map] at h
+    | ok a =>
+      rw [hc] at h
+      simp only [Except.map, Bool.false_eq_true, if_false, Except.ok.injEq] at h
+      subst h
+      simp [Node.kids, Node.isLeaf, Node.isText]
+
+/-- **`Transform.set_node_markup` on a node with content keeps its children**: the operation emits
+    exactly one step, `retypeStep pos (pos + size) newNode`, where `newNode` is the freshly created
+    empty node of the new type, and that step keeps the children, the prefix and the suffix
+    (the new type is required not to be a leaf type, as in the documented use) -/
+theorem setNodeMarkup_keeps_children (S : Schema) (st st' : PSt) (pos : Nat) (ty : Option TypeId)
+    (attrs : Attrs) (marks : Option Marks) (node : Node)
+    (hnode : st.tr.doc.nodeAt pos = .ok (some node)) (hnl : node.isLeaf = false)
+    (hty : (S.nodeType (ty.getD (S.tyOf node))).isLeaf = false)
+    (h : st.setNodeMarkup S pos ty attrs marks = .ok st') :
+    ∃ newNode, st'.tr.steps = st.tr.steps ++ [retypeStep pos (pos + node.size) newNode] ∧
+      S.validContent (ty.getD (S.tyOf node)) node.kids = true ∧
+      KeepsChildren st.tr.doc st'.tr.doc pos (pos + node.size) newNode := by
+  unfold PSt.setNodeMarkup at h
+  rw [hnode] at h
+  simp only at h
+  split at h
+  · simp at h
+  · rename_i newNode hcreate
+    rw [if_neg (by simp [hnl])] at h
+    split at h
+    · simp at h
+    · rename_i hvalid
+      obtain ⟨ha, hs⟩ := PSt.step_spec S st st' _ h
+      have hsize : 2 ≤ node.size := by
+        cases node with
+        | text => simp [Node.isLeaf] at hnl
+        | leaf => simp [Node.isLeaf] at hnl
+        | elem => simp [Node.size]
+      refine ⟨newNode, hs, by simpa using hvalid, ?_⟩
+      exact retypeStep_keeps_children S _ _ pos (pos + node.size) newNode
+        (createNode_shape S _ _ _ _ hty hcreate) (by omega) ha
+
+/-- **`Transform.set_block_type` keeps the children of every block it converts**: whenever the
+    callback converts the visited textblock (its state changes), it has first run
+    `clear_incompatible` (which removes exactly the content the new type cannot hold — see the tie)
+    and then emitted `retypeStep s e newNode` at the mapped positions of the block; that step keeps
+    everything between the block's open and close token, the prefix and the suffix -/
+theorem setBlockType_keeps_children (S : Schema) (ty : TypeId) (attrs : Attrs) (mapFrom : Nat)
+    (st st2 : PSt) (skip skip2 : Nat) (v : NV)
+    (hty : (S.nodeType ty).isLeaf = false)
+    (h : setBlockTypeVisit S ty attrs mapFrom (.ok (st, skip)) v = .ok (st2, skip2)) :
+    (st2 = st ∧ skip2 = skip) ∨
+    ∃ st1 newNode,
+      st.clearIncompatible S (st.mapFrom mapFrom v.pos 1) ty = .ok st1 ∧
+      S.createNode ty attrs v.node.marks = .ok newNode ∧
+      skip2 = v.pos + v.node.size ∧
+      st2.tr.steps = st1.tr.steps ++
+        [retypeStep (st1.mapFrom mapFrom v.pos 1) (st1.mapFrom mapFrom (v.pos + v.node.size) 1) newNode] ∧
+      (st1.mapFrom mapFrom v.pos 1 + 2 ≤ st1.mapFrom mapFrom (v.pos + v.node.size) 1 →
+        KeepsChildren st1.tr.doc st2.tr.doc (st1.mapFrom mapFrom v.pos 1)
+          (st1.mapFrom mapFrom (v.pos + v.node.size) 1) newNode) := by
+  unfold setBlockTypeVisit at h
+  simp only at h
+  split at h
+  · simp only [Except.ok.injEq, Prod.mk.injEq] at h
+    exact .inl ⟨h.1.symm, h.2.symm⟩
+  · split at h
+    · simp only [Except.ok.injEq, Prod.mk.injEq] at h
+      exact .inl ⟨h.1.symm, h.2.symm⟩
+    · split at h
+      · simp at h
+      · simp only [Except.ok.injEq, Prod.mk.injEq] at h
+        exact .inl ⟨h.1.symm, h.2.symm⟩
+      · split at h
+        · simp at h
+        · rename_i st1 hclear
+          split at h
+          · simp at h
+          · rename_i nn hnn
+            cases hs : st1.step S (retypeStep (st1.mapFrom mapFrom v.pos 1)
+                (st1.mapFrom mapFrom (v.pos + v.node.size) 1) nn) with
+            | error e => rw [hs] at h; simp [Except.map] at h
+            | ok st2' =>
+              rw [hs] at h
+              simp only [Except.map, Except.ok.injEq, Prod.mk.injEq] at h
+              obtain ⟨rfl, rfl⟩ := h
+              obtain ⟨ha, hst⟩ := PSt.step_spec S st1 st2' _ hs
+              exact .inr ⟨st1, nn, hclear, hnn, rfl, hst, fun hse =>
+                retypeStep_keeps_children S _ _ _ _ nn (createNode_shape S _ _ _ _ hty hnn) hse ha⟩
+
+/-- **the node-level planners change only the addressed node**: `add_node_mark`, `remove_node_mark`
+    (mark or mark type) and `set_node_attribute` emit at most the one node step at `pos`, so every
+    token other than `pos` is unchanged and the token at `pos` keeps its shape -/
+theorem nodePlanners_local (S : Schema) (tr tr' : Tr) (pos : Nat)
+    (h : (∃ m, tr.addNodeMark S pos m = .ok tr') ∨ (∃ sel, tr.removeNodeMark S pos sel = .ok tr') ∨
+      (∃ n v, tr.setNodeAttribute S pos n v = .ok tr')) :
+    (ftoks tr'.doc.kids).length = (ftoks tr.doc.kids).length ∧
+    (∀ i, i ≠ pos → tokAt (ftoks tr'.doc.kids) i = tokAt (ftoks tr.doc.kids) i) ∧
+    (tokAt (ftoks tr'.doc.kids) pos).shape = (tokAt (ftoks tr.doc.kids) pos).shape := by
+  have key : ∀ st : Step, ((∃ m, st = .addNodeMark pos m) ∨ (∃ m, st = .removeNodeMark pos m) ∨
+      (∃ n v, st = .attr pos n v)) → tr.step S st = .ok tr' →
+      (ftoks tr'.doc.kids).length = (ftoks tr.doc.kids).length ∧
+      (∀ i, i ≠ pos → tokAt (ftoks tr'.doc.kids) i = tokAt (ftoks tr.doc.kids) i) ∧
+      (tokAt (ftoks tr'.doc.kids) pos).shape = (tokAt (ftoks tr.doc.kids) pos).shape :=
+    fun st hst hs => nodeStep_local S tr.doc tr'.doc pos st hst (Tr.step_spec S tr tr' st hs).1
+  rcases h with ⟨m, h⟩ | ⟨sel, h⟩ | ⟨n, v, h⟩
+  · exact key _ (.inl ⟨m, rfl⟩) h
+  · unfold Tr.removeNodeMark at h
+    cases sel with
+    | inl m => exact key _ (.inr (.inl ⟨m, rfl⟩)) h
+    | inr t =>
+      simp only at h
+      split at h
+      · simp at h
+      · simp at h
+      · split at h
+        · simp only [Except.ok.injEq] at h
+          subst h
+          exact ⟨rfl, fun _ _ => rfl, rfl⟩
+        · rename_i found _
+          exact key _ (.inr (.inl ⟨found, rfl⟩)) h
+  · exact key _ (.inr (.inr ⟨n, v, rfl⟩)) h
 
 end PM.C13
